@@ -24,6 +24,7 @@ type c15op struct {
 	Part int    `json:"part,omitempty"`
 	N    int    `json:"n,omitempty"`   // bytes to write / offset to open at
 	Rec  int64  `json:"rec,omitempty"` // record count for commit
+	W    int    `json:"w,omitempty"`   // writer slot: two writers may be open for one partition
 }
 
 type c15case struct {
@@ -79,10 +80,11 @@ func runC15seq(t *vf.T, c c15case) {
 	faulted := func() bool { _, _, f := vfault.snapshot(); return f > 0 }
 	for oi, op := range c.Ops {
 		p := op.Part
+		wk := op.Part*4 + op.W // writers are keyed by (partition, slot)
 		f0 := faulted()
 		switch op.Op {
 		case "create":
-			if writers[p] != nil {
+			if writers[wk] != nil {
 				continue
 			}
 			w, err := store.Create(ctx, name, p)
@@ -96,9 +98,9 @@ func runC15seq(t *vf.T, c c15case) {
 				t.Violate(sig+" create-error", fmt.Sprintf("step %d: Create failed without an injected fault: %v", oi, err))
 				return
 			}
-			writers[p] = &wr{w: w}
+			writers[wk] = &wr{w: w}
 		case "write":
-			w := writers[p]
+			w := writers[wk]
 			if w == nil {
 				continue
 			}
@@ -114,12 +116,18 @@ func runC15seq(t *vf.T, c c15case) {
 				w.buf = append(w.buf, b...)
 			}
 		case "commit":
-			w := writers[p]
+			w := writers[wk]
 			if w == nil {
 				continue
 			}
 			err := w.w.Commit(ctx, op.Rec)
-			delete(writers, p)
+			delete(writers, wk)
+			if err != nil && !faulted() && model[p] != nil && model[p].committed {
+				// another writer has committed this partition in the meantime: a store may refuse
+				// the second commit (the memory store does); the committed data must then stay
+				t.Count("second_commits_refused", 1)
+				continue
+			}
 			fnow := faulted() && !f0
 			if err == nil {
 				if w.dirty || fnow {
@@ -144,9 +152,9 @@ func runC15seq(t *vf.T, c c15case) {
 				}
 			}
 		case "discardw":
-			if w := writers[p]; w != nil {
+			if w := writers[wk]; w != nil {
 				w.w.Discard(ctx)
-				delete(writers, p)
+				delete(writers, wk)
 			}
 		case "open":
 			rc, err := store.Open(ctx, name, p, int64(op.N))
@@ -534,6 +542,10 @@ func runC15(r *vf.Runner) {
 		{{Op: "create"}, {Op: "write", N: 10}, {Op: "write", N: 5000}, {Op: "commit", Rec: 3}, {Op: "open", N: 9}, {Op: "discard"}, {Op: "open"}},
 		{{Op: "create"}, {Op: "write", N: 10}, {Op: "commit", Rec: 1}, {Op: "create"}, {Op: "write", N: 20}, {Op: "commit", Rec: 2}, {Op: "open"}, {Op: "stat"}},
 		{{Op: "create"}, {Op: "commit", Rec: 0}, {Op: "open"}, {Op: "stat"}},
+		// two writers open for the same partition, both commit: every commit that reports success
+		// must be what readers then see
+		{{Op: "create"}, {Op: "create", W: 1}, {Op: "write", N: 10}, {Op: "write", N: 20, W: 1}, {Op: "commit", Rec: 1}, {Op: "open"}, {Op: "commit", Rec: 2, W: 1}, {Op: "open"}, {Op: "stat"}, {Op: "open", N: 15}},
+		{{Op: "create"}, {Op: "create", W: 1}, {Op: "write", N: 30}, {Op: "write", N: 7, W: 1}, {Op: "commit", Rec: 2, W: 1}, {Op: "commit", Rec: 1}, {Op: "open"}, {Op: "stat"}, {Op: "open", N: 5}},
 	}
 	for pi, p := range proto {
 		for k := 0; k < 24; k++ {
@@ -541,6 +553,13 @@ func runC15(r *vf.Runner) {
 				c := c15case{Kind: "seq", Store: "file", Ops: p, FailAt: k, Short: short, Seed: uint64(pi)}
 				r.Case(c, func(t *vf.T) { runC15seq(t, c) })
 			}
+		}
+	}
+	// the protocols also fault-free, on both stores (two writers on one partition included)
+	for pi, p := range proto {
+		for _, st := range []string{"file", "memory"} {
+			c := c15case{Kind: "seq", Store: st, Ops: p, FailAt: -1, Seed: uint64(100 + pi)}
+			r.Case(c, func(t *vf.T) { runC15seq(t, c) })
 		}
 	}
 	// (b) retry reader: failure at every byte position and every partial-read size of short streams
